@@ -316,7 +316,75 @@ const maxDistribute = 48
 // the SMT solver, not the rewriter, discharges the algebraic obligations.
 var Distribute = false
 
-func Mul(a, b *Term) *Term {
+func Mul(a, b *Term) *Term { return mulImpl(a, b, Distribute) }
+
+// MulDist multiplies and always distributes over sums.
+func MulDist(a, b *Term) *Term { return mulImpl(a, b, true) }
+
+// Expand rewrites t into a sum of monomials (polynomial normal form).
+func Expand(t *Term) *Term {
+	switch t.Op {
+	case OSum:
+		l := newLin()
+		l.c.Set(t.Rat)
+		for i, a := range t.Args {
+			l.add(Expand(a), t.Coef[i])
+		}
+		return l.build(t.Sort)
+	case OMul:
+		r := Expand(t.Args[0])
+		for _, a := range t.Args[1:] {
+			r = MulDist(r, Expand(a))
+		}
+		return r
+	case OToReal:
+		return ToReal(Expand(t.Args[0]))
+	}
+	return t
+}
+
+// Monomials splits an expanded term into (coefficient, factors) pairs; the
+// constant part has no factors.
+func Monomials(t *Term) (coefs []*big.Rat, factors [][]*Term) {
+	add := func(k *big.Rat, x *Term) {
+		coefs = append(coefs, k)
+		if x == nil {
+			factors = append(factors, nil)
+		} else if x.Op == OMul {
+			factors = append(factors, x.Args)
+		} else {
+			factors = append(factors, []*Term{x})
+		}
+	}
+	switch t.Op {
+	case OConst:
+		add(t.Rat, nil)
+	case OSum:
+		if t.Rat.Sign() != 0 {
+			add(t.Rat, nil)
+		}
+		for i, a := range t.Args {
+			add(t.Coef[i], a)
+		}
+	default:
+		add(rat1, t)
+	}
+	return
+}
+
+// FromMonomial rebuilds coef * prod(factors).
+func FromMonomial(s Sort, k *big.Rat, fs []*Term) *Term {
+	r := numC(s, rat1)
+	if s == Real {
+		r = RealC(rat1)
+	}
+	for _, f := range fs {
+		r = MulDist(r, f)
+	}
+	return Scale(r, k)
+}
+
+func mulImpl(a, b *Term, dist bool) *Term {
 	s := sortOf(a, b)
 	a, b = coerce(a, s), coerce(b, s)
 	if a.Op == OConst {
@@ -328,7 +396,7 @@ func Mul(a, b *Term) *Term {
 	// distribute over sums so that polynomials reach a normal form
 	aSum := a.Op == OSum && (len(a.Args) > 1 || a.Rat.Sign() != 0)
 	bSum := b.Op == OSum && (len(b.Args) > 1 || b.Rat.Sign() != 0)
-	if Distribute && (aSum || bSum) && len(a.Args)*len(b.Args) <= maxDistribute && s == Real {
+	if (dist && (aSum || bSum) && (len(a.Args)+1)*(len(b.Args)+1) <= 4096) || (Distribute && (aSum || bSum) && len(a.Args)*len(b.Args) <= maxDistribute && s == Real) {
 		l := newLin()
 		type mono struct {
 			k *big.Rat
